@@ -65,14 +65,22 @@ theorem HooksHeap.toRel (H : HooksHeap cx P) : HooksRel (heapFam cx) P where
   insertLocalVal := H.insertLocalVal
   insertLocalFn := H.insertLocalFn
 
-/-- a chain of closed-block links between whole programs preserves the observable outcome -/
-theorem Sem.Heap.chain_runProgram {b b' : Block} (h : Chain (LkB cx) b b') {N : NumOps} (ρ : ExtOracle N) (n : Nat)
-    (externs : List String) : runProgram ρ n externs b' = runProgram ρ n externs b := by
+theorem Sem.Heap.watOK_watD (cx : Cx) : WatOK cx (watD cx) := fun n hn => by
+  obtain ⟨m, hm, he⟩ := List.mem_map.mp hn
+  cases he; exact hm
+
+/-- a chain of closed-block links between whole programs preserves the observable outcome. `hb`: the
+program neither declares nor assigns a watched global; `hG`: the facts about watched globals hold
+initially. With the empty context (`Cx.none`) both are trivial. -/
+theorem Sem.Heap.chain_runProgram {b b' : Block} (h : Chain (LkB cx) b b') (hb : NoRefB (watD cx) b)
+    {N : NumOps} (ρ : ExtOracle N) (n : Nat) (externs : List String)
+    (hG : ∀ p ∈ cx.G N, (initState externs : State N).getGlobal p.1 = p.2) :
+    runProgram ρ n externs b' = runProgram ρ n externs b := by
   induction h with
   | refl => rfl
   | cons hl _ ih =>
-    obtain ⟨⟨D', hr⟩, _⟩ := hl [] (fun _ hx => absurd hx (by simp))
-    exact ih.trans (runProgram_hr ρ n externs hr)
+    obtain ⟨⟨D', hr⟩, hb'⟩ := hl (watD cx) (watOK_watD cx) hb
+    exact (ih hb').trans (runProgram_hr ρ n externs hr hG)
 
 theorem Visitor.visit_chain (H : HooksHeap cx P) (sc : Bool) (fuel : Nat) (pushes : Bool) (b : Block) (s : σ) :
     Chain (LkB cx) b (Visitor.visitBlock P sc fuel pushes b s).1 :=
@@ -81,19 +89,22 @@ theorem Visitor.visit_chain (H : HooksHeap cx P) (sc : Bool) (fuel : Nat) (pushe
 /-- **Stage 3 lifting theorem.** Hooks that rewrite by `HR` links (exact steps and
 allocation-insensitive steps) ⇒ the visited program has the same observable outcome. -/
 theorem Visitor.visit_heap (H : HooksHeap cx P) (sc : Bool) (fuel : Nat) (pushes : Bool) (b : Block) (s : σ)
-    {N : NumOps} (ρ : ExtOracle N) (n : Nat) (externs : List String) :
+    (hb : NoRefB (watD cx) b) {N : NumOps} (ρ : ExtOracle N) (n : Nat) (externs : List String)
+    (hG : ∀ p ∈ cx.G N, (initState externs : State N).getGlobal p.1 = p.2) :
     runProgram ρ n externs (Visitor.visitBlock P sc fuel pushes b s).1 = runProgram ρ n externs b :=
-  chain_runProgram (Visitor.visit_chain H sc fuel pushes b s) ρ n externs
+  chain_runProgram (Visitor.visit_chain H sc fuel pushes b s) hb ρ n externs hG
 
-theorem Visitor.runDefault_heap (H : HooksHeap cx P) (b : Block) (s : σ)
-    {N : NumOps} (ρ : ExtOracle N) (n : Nat) (externs : List String) :
+theorem Visitor.runDefault_heap (H : HooksHeap cx P) (b : Block) (s : σ) (hb : NoRefB (watD cx) b)
+    {N : NumOps} (ρ : ExtOracle N) (n : Nat) (externs : List String)
+    (hG : ∀ p ∈ cx.G N, (initState externs : State N).getGlobal p.1 = p.2) :
     runProgram ρ n externs (Visitor.runDefault P b s).1 = runProgram ρ n externs b :=
-  Visitor.visit_heap H false _ true b s ρ n externs
+  Visitor.visit_heap H false _ true b s hb ρ n externs hG
 
-theorem Visitor.runScoped_heap (H : HooksHeap cx P) (b : Block) (s : σ)
-    {N : NumOps} (ρ : ExtOracle N) (n : Nat) (externs : List String) :
+theorem Visitor.runScoped_heap (H : HooksHeap cx P) (b : Block) (s : σ) (hb : NoRefB (watD cx) b)
+    {N : NumOps} (ρ : ExtOracle N) (n : Nat) (externs : List String)
+    (hG : ∀ p ∈ cx.G N, (initState externs : State N).getGlobal p.1 = p.2) :
     runProgram ρ n externs (Visitor.runScoped P b s).1 = runProgram ρ n externs b :=
-  Visitor.visit_heap H true _ true b s ρ n externs
+  Visitor.visit_heap H true _ true b s hb ρ n externs hG
 
 /-! ### exact hooks are heap hooks when they introduce no identifier references -/
 
@@ -101,9 +112,11 @@ theorem Visitor.runScoped_heap (H : HooksHeap cx P) (b : Block) (s : σ)
 structure HooksNoRef {σ : Type} (P : Processor σ) : Prop where
   expr : ∀ e s D, NoRefE D e → NoRefE D (P.expr e s).1 := by (intros; assumption)
   pref : ∀ e s D, NoRefE D e → NoRefE D (P.pref e s).1 := by (intros; assumption)
-  target : ∀ e s D, NoRefE D e → NoRefE D (P.target e s).1 := by (intros; assumption)
+  target : ∀ e s D, NoRefT D e → NoRefT D (P.target e s).1 := by (intros; assumption)
   node : ∀ e s D, NoRefE D e → NoRefE D (P.node e s).1 := by (intros; assumption)
+  nodeT : ∀ e s D, NoRefT D e → NoRefT D (P.node e s).1 := by (intros; assumption)
   afterNode : ∀ e s D, NoRefE D e → NoRefE D (P.afterNode e s).1 := by (intros; assumption)
+  afterNodeT : ∀ e s D, NoRefT D e → NoRefT D (P.afterNode e s).1 := by (intros; assumption)
   stmt : ∀ x s D, NoRefS D x → NoRefS D (P.stmt x s).1 := by (intros; assumption)
   stmtNode : ∀ x s D, NoRefS D x → NoRefS D (P.stmtNode x s).1 := by (intros; assumption)
   afterStmtNode : ∀ x s D, NoRefS D x → NoRefS D (P.afterStmtNode x s).1 := by (intros; assumption)
@@ -116,26 +129,28 @@ structure HooksNoRef {σ : Type} (P : Processor σ) : Prop where
     (intros; assumption)
 
 theorem HooksExact.toHeap (H : HooksExact P) (F : HooksNoRef P) : HooksHeap cx P where
-  expr := fun e s => .single (.ofEq (H.expr e s) (F.expr e s))
-  pref := fun e s => .single (.ofEq (H.pref e s) (F.pref e s))
-  target := fun e s => .single (.ofEq (H.target e s) (F.target e s))
-  node := fun e s => ⟨.single (.ofEq (H.node e s).1 (F.node e s)), .single (.ofEq (H.node e s).2 (F.node e s))⟩
+  expr := fun e s => .single (.ofEq (H.expr e s) (fun D _ => F.expr e s D))
+  pref := fun e s => .single (.ofEq (H.pref e s) (fun D _ => F.pref e s D))
+  target := fun e s => .single (.ofEq (H.target e s) (fun D _ => F.target e s D))
+  node := fun e s =>
+    ⟨.single (.ofEq (H.node e s).1 (fun D _ => F.node e s D)), .single (.ofEq (H.node e s).2 (fun D _ => F.nodeT e s D))⟩
   afterNode := fun e s =>
-    ⟨.single (.ofEq (H.afterNode e s).1 (F.afterNode e s)), .single (.ofEq (H.afterNode e s).2 (F.afterNode e s))⟩
-  stmt := fun e s => .single (.ofEq (H.stmt e s) (F.stmt e s))
-  stmtNode := fun e s => .single (.ofEq (H.stmtNode e s) (F.stmtNode e s))
-  afterStmtNode := fun e s => .single (.ofEq (H.afterStmtNode e s) (F.afterStmtNode e s))
-  last := fun e s => .single (.ofEq (H.last e s) (F.last e s))
-  block := fun e s => .single (.ofEq (H.block e s) (F.block e s))
-  afterBlock := fun e s => .single (.ofEq (H.afterBlock e s) (F.afterBlock e s))
-  scopeB := fun b s => .single (LkBo.ofEq (H.scopeB b none s) (F.scopeB b none s)).toB
-  scopeR := fun b c s => .single fun D hnb hnc =>
+    ⟨.single (.ofEq (H.afterNode e s).1 (fun D _ => F.afterNode e s D)),
+      .single (.ofEq (H.afterNode e s).2 (fun D _ => F.afterNodeT e s D))⟩
+  stmt := fun e s => .single (.ofEq (H.stmt e s) (fun D _ => F.stmt e s D))
+  stmtNode := fun e s => .single (.ofEq (H.stmtNode e s) (fun D _ => F.stmtNode e s D))
+  afterStmtNode := fun e s => .single (.ofEq (H.afterStmtNode e s) (fun D _ => F.afterStmtNode e s D))
+  last := fun e s => .single (.ofEq (H.last e s) (fun D _ => F.last e s D))
+  block := fun e s => .single (.ofEq (H.block e s) (fun D _ => F.block e s D))
+  afterBlock := fun e s => .single (.ofEq (H.afterBlock e s) (fun D _ => F.afterBlock e s D))
+  scopeB := fun b s => .single (LkBo.ofEq (H.scopeB b none s) (fun D _ => F.scopeB b none s D)).toB
+  scopeR := fun b c s => .single fun D _ hnb hnc =>
     ⟨.rep (.stepB (H.scopeB b (some c) s) (.reflB (F.scopeB b (some c) s D hnb)))
         (.stepE (H.scopeC b c s) (.reflE (F.scopeC b c s D hnc))),
       F.scopeB b (some c) s D hnb, F.scopeC b c s D hnc⟩
   insert := H.insert
   insertLocalName := H.insertLocalName
-  insertLocalVal := fun n v s => .single (.ofEq (H.insertLocalVal n v s) (F.insertLocalVal n v s))
+  insertLocalVal := fun n v s => .single (.ofEq (H.insertLocalVal n v s) (fun D _ => F.insertLocalVal n v s D))
   insertLocalFn := H.insertLocalFn
 
 /-! ## Worked instance: dropping an unused `local x = <atoms>` (scope hook, as `remove_unused_variable`)
@@ -157,7 +172,7 @@ def dropIn (cr : String → Bool) (last : Option Last) : List Stmt → List Stmt
 
 def scopeHook (b : Block) (c : Option Expr) (s : Unit) : (Block × Option Expr) × Unit :=
   match b with
-  | .mk ss last => ((.mk (dropIn (fun n => match c with | some e => e.refs n | none => false) last ss) last, c), s)
+  | .mk ss last => ((.mk (dropIn (fun n => match c with | some e => e.refs (.ref n) | none => false) last ss) last, c), s)
 
 def processor : Processor Unit := { scope := scopeHook }
 
@@ -201,7 +216,7 @@ theorem hooksHeap : HooksHeap Cx.none processor where
     cases b with
     | mk ss last =>
       simp only [processor, scopeHook, Option.getD]
-      rcases dropIn_spec (fun n => c.refs n) last ss with h | ⟨pre, k, ns, vs, rest, h1, h2, h3, h4⟩
+      rcases dropIn_spec (fun n => c.refs (.ref n)) last ss with h | ⟨pre, k, ns, vs, rest, h1, h2, h3, h4⟩
       · rw [h]; exact .refl _
       · rw [h2, h1]
         exact .single (LkRep.dropLocal (TotalPureEs.atoms h3) (fun n hn => (h4 n hn).1) (fun n hn => (h4 n hn).2))
@@ -209,7 +224,7 @@ theorem hooksHeap : HooksHeap Cx.none processor where
 /-- **whole-pass theorem**, for every program -/
 theorem run_refines (b : Block) {N : NumOps} (ρ : ExtOracle N) (n : Nat) (externs : List String) :
     runProgram ρ n externs (Visitor.runScoped processor b ()).1 = runProgram ρ n externs b :=
-  Visitor.runScoped_heap hooksHeap b () ρ n externs
+  Visitor.runScoped_heap hooksHeap b () (fun _ h => by cases h) ρ n externs (fun _ h => by cases h)
 
 /-- non-vacuity: `local function g(a) local unused = a; local y = 1; emit(y) end; g(2)` -/
 def sample : Block :=
